@@ -16,7 +16,7 @@ ASSUMPTIONS = ["names are compared as code point sequences", "static fonts; the 
 
 POOL = [("A", 0x41), ("B", 0x42), ("a", 0x61), ("a.alt", None), ("a.sc", None), ("f", 0x66), ("i", 0x69), ("f_i", None), ("f_i.alt", None),
         ("uni0041", None), ("uni0041.1", None), ("A.1", None), ("A.1.1", None), ("x" * 70, None), ("emoji", 0x1F600), ("e_moji", None),
-        ("space", 0x20), ("f_f_i", None), ("a_a.alt", None), ("Aacute", 0xC1), ("Aacute.ss01", None)]
+        ("space", 0x20), ("f_f_i", None), ("a-b", None), ("f-i.alt", None), ("c+d", 0x63), ("Aring-ko", 0xC5), ("a_a.alt", None), ("Aacute", 0xC1), ("Aacute.ss01", None)]
 PS_VALUES = ["Alpha", "Alpha", "Alpha.1", "uni0041", "we!rd(name)", "", "x" * 70, "A", "A.1", "B", "ok_name", "é", "a.alt"]
 
 
@@ -37,7 +37,8 @@ def cases(tier, seed):
         lib = {}
         r = rng.random()
         if r < 0.55:
-            lib["public.postscriptNames"] = {nm: rng.choice(PS_VALUES) for nm in names if rng.random() < 0.7}
+            lib["public.postscriptNames"] = {nm: (("y" * 70) if (rng.random() < 0.4 and not nm.replace("_", "").replace(".", "").isalnum()) else rng.choice(PS_VALUES))
+                                             for nm in names if rng.random() < 0.7}
         elif r < 0.65:
             lib["public.postscriptNames"] = {}
         kwargs_on = {}
